@@ -310,6 +310,13 @@ class Project(MessageHandler):
         return 60 * 60
 
     def schedule(self) -> bool:
+        # A project is scheduled once. Running the scheduler again would rebuild the
+        # resource scoreboards from scratch while keeping the dates and flags of the
+        # first run, and retry failed tasks from the state they were left in: the
+        # result would differ from the first one (the CLI calls schedule() twice).
+        if getattr(self, "_scheduleDone", False):
+            return True
+
         # Extend project end if tasks require more time
         self._extendProjectEndIfNeeded()
 
@@ -340,6 +347,7 @@ class Project(MessageHandler):
             # Finish
             self.finishScenario(scIdx)
 
+        self._scheduleDone = True
         return True
 
     def prepareScenario(self, scIdx: int) -> None:
